@@ -4,7 +4,7 @@ from verifkit import read_lines, VERIF
 
 REQUIRED = ["DaeVerif.C17.Props." + n for n in [
     "parse_total", "tokens_iff_tree", "parse_spells", "lexer_reads_back", "parse_render",
-    "parse_render_canonical", "wfCheck_establishes_WF", "skips_whitespace", "skips_line_comment", "skips_concat",
+    "parse_render_canonical", "wfCheck_establishes_WF", "skips_whitespace", "skips_line_comment", "skips_block_comment", "skips_concat",
     "walk_keeps_every_item", "walkFn_faithful",
     "merge_order", "merge_into_appends", "circular_include_rejected", "include_of_visited_rejected",
     "merge_no_file_twice", "merge_reads_confined", "confined_means_under",
